@@ -313,6 +313,22 @@ def body_eval(c, ctx):
         if one.shape != ref.shape or not np.allclose(one, ref, rtol=0, atol=1e-9 * mag):
             ctx.fail('interpolator_single_points', f'{lab}: evaluating point {j} on its own gives {one.ravel()[:4]}, expected {ref.ravel()[:4]}', **sig)
             break
+    # the caller moves its points IN PLACE (x[:] = ...) and asks again with the same array object: the answer is for the new points
+    if x.shape[1] >= 2 and not np.array_equal(x, x[:, ::-1]):
+        xm = x.copy()
+        f3 = basis.interpolator(u)
+        try:
+            f3(xm), basis.probes(xm)
+            xm[:] = xm[:, ::-1].copy()
+            v_obj = np.asarray(f3(xm))
+            P_obj = basis.probes(xm)
+            v_new = np.asarray(basis.interpolator(u)(xm.copy()))
+            if v_obj.shape != v_new.shape or not np.allclose(v_obj, v_new, rtol=0, atol=1e-9 * mag) or \
+                    not np.allclose(np.asarray(P_obj @ u), np.asarray(basis.probes(xm.copy()) @ u), rtol=0, atol=1e-9 * mag):
+                ctx.fail('points_moved_in_place', f'{lab}: the same array object with new contents gives the values of the old points', **sig)
+        except ValueError as e:
+            if 'outside' not in str(e):
+                raise
     # point source: inner product of a Dirac delta with the test functions
     if tensor == 0:
         try:
